@@ -203,6 +203,12 @@ def check_cut(w, c, raw_ts, st, res, win_rng, real=False, backend=None, index_be
     except Exception as exc:
         out.append(V('C06.lazy-raises', 'cut %d: open %s: %s' % (c, type(exc).__name__, exc), exc=type(exc).__name__))
         return out
+    if c % 9 == 4:
+        # the caller keeps the channel objects and lets go of the TdmsFile (a helper that returns channels)
+        import gc
+        lazy = ops.KeptChannels(lazy, w)
+        gc.collect()
+        res.probe('file-object-dropped')
     try:
         for path, gn in eager_norm.items():
             chn = ops.chan(lazy, w, path)
